@@ -399,7 +399,7 @@ Qed.
 Lemma parse_arpa_text_no_oof : forall st file, no_oof (parse_arpa_text st file).
 Proof.
   intros st file. unfold parse_arpa_text. apply bind_no_oof; [apply read_arpa_counts_no_oof|]. intros [counts r0] _.
-  destruct (Nat.ltb KENLM_MAX_ORDER (length counts)); [oof_step|]. destruct (Nat.ltb (length counts) 2); [oof_step|].
+  destruct (Nat.ltb KENLM_MAX_ORDER (length counts)); [oof_step|]. destruct (Nat.ltb (length counts) 2); [oof_step|]. destruct (hd 0 counts =? 0); [oof_step|].
   apply bind_no_oof; [apply read_ngram_header_no_oof|]. intros r1 _.
   apply bind_no_oof; [apply read_1grams_no_oof; lia|]. intros [[[words su] unigrams] r2] _.
   destruct (index words s_bos =? 0); [oof_step|]. destruct (index words s_eos =? 0); [oof_step|].
@@ -538,7 +538,7 @@ Lemma parse_arpa_text_wellformed : forall st file m, parse_arpa_text st file = O
 Proof.
   intros st file m H. unfold parse_arpa_text in H. bind_ok H. destruct x as [counts r0].
   destruct (Nat.ltb KENLM_MAX_ORDER (length counts)) eqn:O1; [discriminate|].
-  destruct (Nat.ltb (length counts) 2) eqn:O2; [discriminate|].
+  destruct (Nat.ltb (length counts) 2) eqn:O2; [discriminate|]. destruct (hd 0 counts =? 0); [discriminate|].
   apply Nat.ltb_ge in O1. apply Nat.ltb_ge in O2.
   bind_ok H. bind_ok H. destruct x0 as [[[words su] unigrams] r2]. apply read_1grams_ok in Ha1; [|constructor]. destruct Ha1 as [L1 F1].
   destruct (index words s_bos =? 0) eqn:B; [discriminate|]. destruct (index words s_eos =? 0) eqn:E; [discriminate|].
@@ -567,7 +567,7 @@ Proof.
   destruct (Nat.ltb 88 (length file) && starts_with magic_before_version file); [discriminate|].
   destruct (compressed_magic file); [discriminate|].
   unfold parse_arpa_text in H. bind_ok H. destruct x as [counts r0].
-  destruct (Nat.ltb KENLM_MAX_ORDER (length counts)); [discriminate|]. destruct (Nat.ltb (length counts) 2); [discriminate|].
+  destruct (Nat.ltb KENLM_MAX_ORDER (length counts)); [discriminate|]. destruct (Nat.ltb (length counts) 2); [discriminate|]. destruct (hd 0 counts =? 0); [discriminate|].
   bind_ok H. bind_ok H. destruct x0 as [[[words su] unigrams] r2].
   destruct (index words s_bos =? 0); [discriminate|]. destruct (index words s_eos =? 0); [discriminate|].
   bind_ok H. destruct x0 as [[sections ts] r3]. bind_ok H.
@@ -645,7 +645,7 @@ Proof.
   destruct (Nat.ltb 88 (length file) && starts_with magic_before_version file); [discriminate|].
   destruct (compressed_magic file); [discriminate|].
   unfold parse_arpa_text in H. bind_ok H. destruct x as [counts r0].
-  destruct (Nat.ltb KENLM_MAX_ORDER (length counts)); [discriminate|]. destruct (Nat.ltb (length counts) 2); [discriminate|].
+  destruct (Nat.ltb KENLM_MAX_ORDER (length counts)); [discriminate|]. destruct (Nat.ltb (length counts) 2); [discriminate|]. destruct (hd 0 counts =? 0); [discriminate|].
   bind_ok H. bind_ok H. destruct x0 as [[[words su] unigrams] r2].
   destruct (index words s_bos =? 0); [discriminate|]. destruct (index words s_eos =? 0); [discriminate|].
   bind_ok H. destruct x0 as [[sections ts] r3]. bind_ok H. inv H. simpl.
@@ -977,7 +977,7 @@ Qed.
 Lemma accepted_text_contains_end : forall st file m, parse_arpa_text st file = Ok m -> contains s_end file.
 Proof.
   intros st file m H. unfold parse_arpa_text in H. bind_ok H. destruct x as [counts r0]. apply read_arpa_counts_suffix in Ha.
-  destruct (Nat.ltb KENLM_MAX_ORDER (length counts)); [discriminate|]. destruct (Nat.ltb (length counts) 2); [discriminate|].
+  destruct (Nat.ltb KENLM_MAX_ORDER (length counts)); [discriminate|]. destruct (Nat.ltb (length counts) 2); [discriminate|]. destruct (hd 0 counts =? 0); [discriminate|].
   bind_ok H. apply read_ngram_header_suffix in Ha0. bind_ok H. destruct x0 as [[[words su] unigrams] r2]. apply read_1grams_suffix in Ha1.
   destruct (index words s_bos =? 0); [discriminate|]. destruct (index words s_eos =? 0); [discriminate|].
   bind_ok H. destruct x0 as [[sections ts] r3]. apply read_sections_suffix in Ha2.
